@@ -125,6 +125,14 @@ def gen_exhaustive(max_clauses):
             yield [list(c) for c in combo]
 
 
+def gen_exhaustive_sets(k):
+    """All k-clause combinations of the 42 clause *sets* of width <= 3 over 3 variables."""
+    pool = lit_pool(3)
+    clauses = [list(c) for w in range(0, 4) for c in itertools.combinations(pool, w)]
+    for combo in itertools.combinations(clauses, k):
+        yield [list(c) for c in combo]
+
+
 # ------------------------------------------------------------------ implementation side
 def name_of(i):
     return "v%d" % i
@@ -669,7 +677,8 @@ def run(ctx):
     ctx.coverage["rule"] = ("CNFs over int-named variables, five families: random 3-SAT around the threshold (3-9 variables), mixed 2/3/4-SAT "
                             "(3-12 variables, up to 60 clauses), structured (all sign patterns, pigeonhole, parity chains, implication ladders; shuffled, "
                             "renamed, polarity-flipped), and messy (1-8 variables, unit/empty/duplicate clauses, repeated and complementary literals); in "
-                            "the thorough tier also every combination of <=3 clauses out of the 84 clause multisets of width <=3 over 3 variables. "
+                            "the thorough tier also every combination of <=3 clauses out of the 84 clause multisets of width <=3 over 3 variables and every "
+                            "combination of 4 out of the 42 clause sets. "
                             "Non-trivial = at least two clauses and one clause of width >=2; distinct by the literal lists. The histogram records how many "
                             "resolution calls / learned clauses each run needed. Tseitin: fixed corner cases, random formulas over 4 atoms of depth <=3, "
                             "and negated tautology-scheme instances (unsatisfiable), ~45%.")
@@ -701,7 +710,7 @@ def run(ctx):
     have_model = check_cases(ctx, sat, cases, "random")
     if ctx.tier == "thorough":
         batch = []
-        for cnf in gen_exhaustive(3):
+        for cnf in itertools.chain(gen_exhaustive(3), gen_exhaustive_sets(4)):
             batch.append(cnf)
             if len(batch) >= 20000:
                 check_cases(ctx, sat, batch, "exhaustive")
@@ -709,7 +718,8 @@ def run(ctx):
         if batch:
             check_cases(ctx, sat, batch, "exhaustive")
         ctx.coverage["exhaustive"] = False  # exhaustive for the stated sub-space only
-        ctx.coverage["exhaustive_subspace"] = "all <=3-clause combinations of the 84 clause multisets over 3 variables"
+        ctx.coverage["exhaustive_subspace"] = ("all <=3-clause combinations of the 84 clause multisets of width <=3 over 3 variables, and all "
+                                               "4-clause combinations of the 42 clause sets of width <=3 over 3 variables")
     if not have_model:
         ctx.broken("correspondence:c15:driver", "model driver unavailable")
     # 4. tseitin
